@@ -83,7 +83,9 @@ def run_C10(ctx):
         bounds = [0] + [o + l for (_, o, l) in recs]
         for trunc in (1, 0):
             # truncation enabled is the default: a third of those configurations leave the field unset
-            cfg = "100000 1073741824 4 1073741824 %s %d" % ("-" if trunc == 1 and rnd.random() < 0.34 else trunc, rnd.choice(gen.CFG_RBUF))
+            # (chunk limits of the reopening run vary too: a discarded tail may be longer than a whole chunk may be)
+            cfg = "100000 1073741824 %d %d %s %d" % (rnd.choice([4, 4, 2, 100000]), rnd.choice([1 << 30, 1 << 30, 400, 150, 60]),
+                                                   "-" if trunc == 1 and rnd.random() < 0.34 else trunc, rnd.choice(gen.CFG_RBUF))
             cuts = range(len(data) + 1) if (len(data) <= 700 or ctx.thorough()) else sorted(set(list(range(0, 60)) + bounds + [b - 1 for b in bounds if b] + [b + 1 for b in bounds] + [rnd.randrange(len(data)) for _ in range(200)]))
             for p in cuts:
                 if p > len(data):
@@ -427,7 +429,11 @@ def run_C09(ctx):
         # one image at a time: the sweep of one image is run and judged, then dropped
         cases, meta = [], []
         disk = im["disk"]
-        cfg = "100000 1073741824 4 1073741824 1 %d" % rnd.choice(gen.CFG_RBUF)
+        # a third of the images are opened with truncation of incomplete records DISABLED: there
+        # nothing may be cut away, whatever the alteration looks like
+        trunc_on = (ii % 3 != 1)
+        cfg = "100000 1073741824 4 1073741824 %d %d" % (1 if trunc_on else 0, rnd.choice(gen.CFG_RBUF))
+        ctx.count("sweep_images_truncation_" + ("on" if trunc_on else "off"))
         for fi, (fid, data) in enumerate(disk):
             # all 255 replacement values: header and checksum bytes of every record of the first
             # image (thorough tier); elsewhere the 8 single-bit flips, 0, 255 and in the thorough
@@ -502,14 +508,14 @@ def run_C09(ctx):
                 elif f[0] == "opened":
                     same = p_seq.state_of_stat(f[1]) == p_seq.state_of_stat(im["clean_state"]) and f[2] == im["clean_read"]
                     why = "an altered byte inside a complete record was absorbed: open succeeded" + (" with the original content" if same else " with different state or entries")
-                    if res == "eof" and m["newest"]:
+                    if res == "eof" and m["newest"] and trunc_on:
                         cls = "F5-length-flip-newest-chunk-taken-for-torn-tail"
                 else:
                     after = parse_disk(f[1])
-                    nn = len(d2) - 1
+                    nn = len(d2) - 1 if trunc_on else len(d2)
                     if after[:nn] != d2[:nn]:
-                        why = "the refused open modified a chunk file other than the newest"
-                        if res == "eof" and not m["newest"]:
+                        why = "the refused open modified a chunk file other than the newest" if trunc_on else "the refused open modified a chunk file although truncation is disabled"
+                        if res == "eof" and not m["newest"] and trunc_on:
                             cls = "F6-refused-open-truncates-older-chunk"
             if why:
                 bad += 1
